@@ -1,11 +1,10 @@
 from __future__ import annotations
 
 import functools
-import math
 from collections.abc import Callable
 from typing import Any
 
-import pandas as pd
+import numpy as np
 
 from dask.dataframe import methods
 from dask.dataframe.dask_expr._expr import (
@@ -23,7 +22,6 @@ class CumulativeAggregations(Expr):
 
     chunk_operation = None
     aggregate_operation: Callable | None = None
-    neutral_element: int | None = None
 
     def _divisions(self):
         return self.frame._divisions()
@@ -38,7 +36,7 @@ class CumulativeAggregations(Expr):
         )
         chunks_last = TakeLast(chunks, self.skipna)
         return CumulativeFinalize(
-            chunks, chunks_last, self.aggregate_operation, self.neutral_element
+            chunks, chunks_last, self.aggregate_operation, self.skipna
         )
 
     def _simplify_up(self, parent, dependents):
@@ -70,15 +68,16 @@ class TakeLast(Blockwise):
 
     @staticmethod
     def operation(a, skipna=True):
+        # The last row is kept as an object of the same kind as the partition
+        # (without a row for an empty partition), so that every column keeps
+        # its dtype.  With skipna a missing value means "no valid value".
         if skipna:
-            if a.ndim == 1 and (a.empty or a.isna().all()):
-                return None
             a = a.ffill()
-        return a.tail(n=1).squeeze()
+        return a.tail(n=1)
 
 
 class CumulativeFinalize(Expr):
-    _parameters = ["frame", "previous_partitions", "aggregator", "neutral_element"]
+    _parameters = ["frame", "previous_partitions", "aggregator", "skipna"]
 
     def _divisions(self):
         return self.frame._divisions()
@@ -103,49 +102,64 @@ class CumulativeFinalize(Expr):
                     self.aggregator,
                     (intermediate_name, i - 1),
                     (previous_partitions._name, i - 1),
-                    self.neutral_element,
+                    self.skipna,
                 )
             dsk[(self._name, i)] = (
                 cumulative_wrapper,
                 self.aggregator,
                 (self.frame._name, i),
                 (intermediate_name, i),
-                self.neutral_element,
+                self.skipna,
             )
         return dsk
 
 
-def cumulative_wrapper(func, x, y, neutral_element):
-    if isinstance(y, pd.Series) and len(y) == 0:
-        y = neutral_element
-    return func(x, y)
+def _repeat_row(row, like):
+    # Repeat the only row of ``row`` for every row of ``like``
+    row = row.iloc[np.zeros(len(like), dtype=int)]
+    row.index = like.index
+    return row
 
 
-def cumulative_wrapper_intermediate(func, x, y, neutral_element):
-    if isinstance(y, pd.Series) and len(y) == 0:
-        y = neutral_element
-    return methods._cum_aggregate_apply(func, x, y)
+def cumulative_wrapper(func, x, last, skipna):
+    """Combine the cumulated partition ``x`` with ``last``, the running value
+    of all previous partitions (same kind of object with at most one row)."""
+    if len(last) == 0 or len(x) == 0:
+        return x
+    y = _repeat_row(last, x)
+    out = func(x, y)
+    if skipna and last.isna().to_numpy().any():
+        # nothing valid was seen so far
+        out = out.where(y.notna(), x)
+    return out
+
+
+def cumulative_wrapper_intermediate(func, last, x, skipna):
+    """Running value after a partition whose last row is ``x``"""
+    if len(last) == 0 or len(x) == 0:
+        return x if len(last) == 0 else last
+    out = cumulative_wrapper(func, x, last, skipna)
+    if skipna and x.isna().to_numpy().any():
+        # the partition has no valid value
+        out = out.where(x.notna(), _repeat_row(last, x))
+    return out
 
 
 class CumSum(CumulativeAggregations):
     chunk_operation = M.cumsum
     aggregate_operation = staticmethod(methods.cumsum_aggregate)
-    neutral_element = 0
 
 
 class CumProd(CumulativeAggregations):
     chunk_operation = M.cumprod
     aggregate_operation = staticmethod(methods.cumprod_aggregate)
-    neutral_element = 1
 
 
 class CumMax(CumulativeAggregations):
     chunk_operation = M.cummax
     aggregate_operation = staticmethod(methods.cummax_aggregate)
-    neutral_element = -math.inf  # type: ignore[assignment]
 
 
 class CumMin(CumulativeAggregations):
     chunk_operation = M.cummin
     aggregate_operation = staticmethod(methods.cummin_aggregate)
-    neutral_element = math.inf  # type: ignore[assignment]
